@@ -45,7 +45,9 @@ RecDef(i, nxt, exported) == [t |-> "macro", name |-> RecName(i), export |-> expo
                              body |-> <<T(<<".">>), Out(Call(RecName(nxt), <<Bin("+", Var(<<"n">>), Lit(I(1)))>>))>>]
 \* where the unconditional call sits: in the body, in the default of a second parameter (the caller never supplies it), as the
 \* argument of a call, in a set/with binding, in a loop
-Placements == {"body", "default", "arg", "set", "loop", "default_only"}
+\* "include": the body includes another template and that one calls the next macro (which it sees like every name of the includer)
+Placements == {"body", "default", "arg", "set", "loop", "default_only", "include"}
+IncName(i) == <<"inc1", "inc2", "inc3">>[i]
 RecDefAt(i, nxt, exported, place) ==
   LET call == Call(RecName(nxt), <<Bin("+", Var(<<"n">>), Lit(I(1)))>>) IN
   CASE place = "body" -> RecDef(i, nxt, exported)
@@ -57,12 +59,16 @@ RecDefAt(i, nxt, exported, place) ==
                          body |-> <<T(<<".">>), Out(Call(RecName(nxt), <<call>>))>>]
     [] place = "set" -> [t |-> "macro", name |-> RecName(i), export |-> exported, params |-> <<[name |-> "n", def |-> NoDef]>>,
                          body |-> <<[t |-> "set", name |-> "r", e |-> call], T(<<".">>)>>]
+    [] place = "include" -> [t |-> "macro", name |-> RecName(i), export |-> exported, params |-> <<[name |-> "n", def |-> NoDef]>>,
+                             body |-> <<T(<<".">>), [t |-> "include", name |-> IncName(i), pairs |-> <<>>, only |-> FALSE]>>]
     [] place = "loop" -> [t |-> "macro", name |-> RecName(i), export |-> exported, params |-> <<[name |-> "n", def |-> NoDef]>>,
                           body |-> <<[t |-> "for", key |-> "i", val |-> "", e |-> Var(<<"l2">>), rev |-> FALSE, sorted |-> FALSE, body |-> <<T(<<".">>), Out(call)>>, empty |-> <<>>]>>]
 RecProgAt(nm, nxt, mode, place) ==
   IF mode = "local" THEN [i \in 1..nm |-> RecDefAt(i, nxt[i], FALSE, place[i])] \o <<Out(Call("r1", <<Lit(I(0))>>))>>
   ELSE [i \in 1..nm |-> [t |-> "import", file |-> "lib", name |-> RecName(i), as |-> RecName(i)]] \o <<Out(Call("r1", <<Lit(I(0))>>))>>
-RecFilesAt(nm, nxt, place) == [lib |-> [i \in 1..nm |-> RecDefAt(i, nxt[i], TRUE, place[i])]]
+RecFilesAt(nm, nxt, place) ==
+  LET inc(i) == <<Out(Call(RecName(nxt[i]), <<Bin("+", Var(<<"n">>), Lit(I(1)))>>))>> IN
+  [lib |-> [i \in 1..nm |-> RecDefAt(i, nxt[i], TRUE, place[i])], inc1 |-> inc(1), inc2 |-> IF nm >= 2 THEN inc(2) ELSE <<>>]
 \* modes "alias" / "both": the macros are imported under other names (z1..) - alone, or next to an import under their own names.
 \* The body of a macro runs in the scope it was imported into: under "alias" the names r1.. its body calls are bound to nothing there
 \* (the call prints nothing and the rendering ends after the first "."), under "both" they are bound and the recursion is runaway.
